@@ -260,7 +260,8 @@ def finish(rep, mod):
     for v in rep.violations:
         hit = None
         for f in kf:
-            if v['key'] in f.get('keys', ()) or (f.get('key') and (v['key'] == f['key'] or v['key'].startswith(f['key']))):
+            if v['key'] in f.get('keys', ()) or (f.get('key') and (v['key'] == f['key'] or v['key'].startswith(f['key']))) \
+                    or (f.get('key_contains') and f['key_contains'] in v['key']):
                 if f.get('witness_sha') and v.get('input') is not None:
                     pass
                 hit = f
